@@ -40,11 +40,14 @@ pub open spec fn leaving(s: ActorStatus) -> bool { (s as u8) >= (ActorStatus::Dr
 ///  * `sup[a]`   = id of the actor stored in `a.tree.supervisor`
 ///  * `status[a]`= what `a.get_status()` returns while the global lock is held (status is monotone, see C06)
 ///  * `locked`   = the calling function holds `TREE_MUTATION_LOCK`
+///  * `killed`   = actors on which `kill()` has been called
 pub tracked struct TreeHeap {
     pub ghost kids: Map<ActorId, Option<Set<ActorId>>>,
     pub ghost sup: Map<ActorId, Option<ActorId>>,
     pub ghost status: Map<ActorId, ActorStatus>,
     pub ghost locked: bool,
+    /// actors on which `kill()` has been called
+    pub ghost killed: Set<ActorId>,
 }
 pub open spec fn total(h: TreeHeap) -> bool {
     &&& forall|a: ActorId| #[trigger] h.kids.contains_key(a)
@@ -97,7 +100,7 @@ impl TreeLock {
     #[verus_verify(external_body)]
     #[verus_spec(r =>
         with Tracked(heap): Tracked<&mut TreeHeap>
-        ensures final(heap).locked, final(heap).kids == old(heap).kids, final(heap).sup == old(heap).sup, final(heap).status == old(heap).status
+        ensures final(heap).locked, final(heap).kids == old(heap).kids, final(heap).sup == old(heap).sup, final(heap).status == old(heap).status, final(heap).killed == old(heap).killed
     )]
     pub fn lock(&self) -> VxLock<TreeLockGuard> { unimplemented!() }
 }
@@ -136,7 +139,7 @@ impl KidsGuard {
         ensures
             final(self).owner == old(self).owner,
             final(heap).kids == old(heap).kids.insert(old(self).owner, None),
-            final(heap).sup == old(heap).sup, final(heap).status == old(heap).status, final(heap).locked == old(heap).locked,
+            final(heap).sup == old(heap).sup, final(heap).status == old(heap).status, final(heap).locked == old(heap).locked, final(heap).killed == old(heap).killed,
             (r is Some) == (old(heap).kids[old(self).owner] is Some),
             r matches Some(m) ==> m.detached && m.owner == old(self).owner && m.content == old(heap).kids[old(self).owner].unwrap(),
     )]
@@ -152,7 +155,7 @@ impl KidsMap {
         ensures
             *final(self) == *old(self),
             final(heap).kids == old(heap).kids.insert(old(self).owner, Some(old(heap).kids[old(self).owner].unwrap().insert(k))),
-            final(heap).sup == old(heap).sup, final(heap).status == old(heap).status, final(heap).locked == old(heap).locked,
+            final(heap).sup == old(heap).sup, final(heap).status == old(heap).status, final(heap).locked == old(heap).locked, final(heap).killed == old(heap).killed,
     )]
     pub fn insert(&mut self, k: ActorId, v: ActorCell) -> Option<ActorCell> { unimplemented!() }
 
@@ -163,7 +166,7 @@ impl KidsMap {
         ensures
             *final(self) == *old(self),
             final(heap).kids == old(heap).kids.insert(old(self).owner, Some(old(heap).kids[old(self).owner].unwrap().remove(*k))),
-            final(heap).sup == old(heap).sup, final(heap).status == old(heap).status, final(heap).locked == old(heap).locked,
+            final(heap).sup == old(heap).sup, final(heap).status == old(heap).status, final(heap).locked == old(heap).locked, final(heap).killed == old(heap).killed,
     )]
     pub fn remove(&mut self, k: &ActorId) -> Option<ActorCell> { unimplemented!() }
 
@@ -199,7 +202,7 @@ impl SupGuard {
         ensures
             final(self).owner == old(self).owner,
             final(heap).sup == old(heap).sup.insert(old(self).owner, Some(v@)),
-            final(heap).kids == old(heap).kids, final(heap).status == old(heap).status, final(heap).locked == old(heap).locked,
+            final(heap).kids == old(heap).kids, final(heap).status == old(heap).status, final(heap).locked == old(heap).locked, final(heap).killed == old(heap).killed,
             (r is Some) == (old(heap).sup[old(self).owner] is Some),
             r matches Some(c) ==> Some(c@) == old(heap).sup[old(self).owner] && cell_wf(c),
     )]
@@ -213,7 +216,7 @@ impl SupGuard {
         ensures
             final(self).owner == old(self).owner,
             final(heap).sup == old(heap).sup.insert(old(self).owner, match v { Some(c) => Some(c@), None => None }),
-            final(heap).kids == old(heap).kids, final(heap).status == old(heap).status, final(heap).locked == old(heap).locked,
+            final(heap).kids == old(heap).kids, final(heap).status == old(heap).status, final(heap).locked == old(heap).locked, final(heap).killed == old(heap).killed,
     )]
     pub fn vx_store(&mut self, v: Option<ActorCell>) { unimplemented!() }
 }
@@ -230,6 +233,25 @@ impl ActorCell {
         ensures *final(heap) == *old(heap), r == old(heap).status[self@]
     )]
     pub fn get_status(&self) -> ActorStatus { unimplemented!() }
+    /// `get_children()`: a snapshot of the child set; the set itself stays as it is
+    #[verus_verify(external_body)]
+    #[verus_spec(r =>
+        with Tracked(heap): Tracked<&mut TreeHeap>
+        ensures
+            *final(heap) == *old(heap),
+            forall|j: int| 0 <= j < r@.len() ==> child_of(*old(heap), (#[trigger] r@[j])@, self@) && cell_wf(r@[j]),
+            forall|c: ActorId| old(heap).kids[self@] is Some && #[trigger] old(heap).kids[self@].unwrap().contains(c) ==> 0 <= pos(r@, c) < r@.len() && r@[pos(r@, c)]@ == c,
+    )]
+    pub fn get_children(&self) -> Vec<ActorCell> { unimplemented!() }
+    /// `kill()`: sends the kill signal (C03/C04 say what that does); here only WHO was signalled matters
+    #[verus_verify(external_body)]
+    #[verus_spec(
+        with Tracked(heap): Tracked<&mut TreeHeap>
+        ensures
+            final(heap).killed == old(heap).killed.insert(self@),
+            final(heap).kids == old(heap).kids, final(heap).sup == old(heap).sup, final(heap).status == old(heap).status, final(heap).locked == old(heap).locked,
+    )]
+    pub fn kill(&self) { unimplemented!() }
 }
 verus! {
 impl Clone for ActorCell {
@@ -239,3 +261,116 @@ impl Clone for ActorCell {
 }
 #[verus_verify(external_body)]
 pub fn vx_drop<T>(t: T) { }
+
+verus! {
+/// `a` is the id of one of the cells in `s` (recursive on the last element: matches how `pop` and `push` take a worklist apart)
+pub open spec fn has(s: Seq<ActorCell>, a: ActorId) -> bool
+    decreases s.len(),
+{
+    s.len() > 0 && (s.last()@ == a || has(s.drop_last(), a))
+}
+pub open spec fn all_wf(s: Seq<ActorCell>) -> bool { forall|i: int| 0 <= i < s.len() ==> cell_wf(#[trigger] s[i]) }
+
+pub proof fn lemma_has_index(s: Seq<ActorCell>, i: int)
+    requires 0 <= i < s.len(),
+    ensures has(s, s[i]@),
+    decreases s.len(),
+{
+    if i < s.len() - 1 { assert(s.drop_last()[i] == s[i]); lemma_has_index(s.drop_last(), i); }
+}
+pub proof fn lemma_has_witness(s: Seq<ActorCell>, a: ActorId) -> (i: int)
+    requires has(s, a),
+    ensures 0 <= i < s.len(), s[i]@ == a,
+    decreases s.len(),
+{
+    if s.last()@ == a { s.len() - 1 } else { let i = lemma_has_witness(s.drop_last(), a); assert(s.drop_last()[i] == s[i]); i }
+}
+pub proof fn lemma_has_append_rev(s: Seq<ActorCell>, t: Seq<ActorCell>, a: ActorId)
+    ensures has(s + t.reverse(), a) <==> has(s, a) || has(t, a),
+{
+    let u = s + t.reverse();
+    if has(s, a) {
+        let i = lemma_has_witness(s, a);
+        assert(u[i] == s[i]);
+        lemma_has_index(u, i);
+    }
+    if has(t, a) {
+        let i = lemma_has_witness(t, a);
+        let j = s.len() + (t.len() - 1 - i);
+        assert(u[j] == t.reverse()[t.len() - 1 - i]);
+        assert(t.reverse()[t.len() - 1 - i] == t[i]);
+        lemma_has_index(u, j);
+    }
+    if has(u, a) {
+        let i = lemma_has_witness(u, a);
+        if i < s.len() { assert(u[i] == s[i]); lemma_has_index(s, i); }
+        else {
+            let k = i - s.len();
+            assert(u[i] == t.reverse()[k]);
+            assert(t.reverse()[k] == t[t.len() - 1 - k]);
+            lemma_has_index(t, t.len() - 1 - k);
+        }
+    }
+}
+pub proof fn lemma_all_wf_append_rev(s: Seq<ActorCell>, t: Seq<ActorCell>)
+    requires all_wf(s), all_wf(t),
+    ensures all_wf(s + t.reverse()),
+{
+    let u = s + t.reverse();
+    assert forall|i: int| 0 <= i < u.len() implies cell_wf(#[trigger] u[i]) by {
+        if i < s.len() { assert(u[i] == s[i]); }
+        else { let k = i - s.len(); assert(u[i] == t.reverse()[k]); assert(t.reverse()[k] == t[t.len() - 1 - k]); }
+    }
+}
+
+/// what `terminate` leaves behind, relative to the heap `h0` it started from: every child set it closed has all its
+/// (then) children closed as well
+pub open spec fn closed_downwards(h0: TreeHeap, h1: TreeHeap) -> bool {
+    forall|a: ActorId, c: ActorId| h1.kids[a] is None && h0.kids[a] is Some && #[trigger] h0.kids[a].unwrap().contains(c) ==> h1.kids[c] is None
+}
+/// C05 "takes its whole subtree with it": from `closed_downwards`, every actor reachable from the root along child links of
+/// the starting heap (a path `p[0] = root, p[k+1] child of p[k]`) has been visited (its child set closed, kill sent if running)
+// @props C05
+pub proof fn lemma_whole_subtree(h0: TreeHeap, h1: TreeHeap, root: ActorId, p: Seq<ActorId>)
+    requires
+        closed_downwards(h0, h1),
+        h1.kids[root] is None,
+        forall|a: ActorId| h0.kids[a] is None ==> h1.kids[a] is None,
+        p.len() >= 1, p[0] == root,
+        forall|k: int| 0 <= k < p.len() - 1 ==> child_of(h0, #[trigger] p[k + 1], p[k]),
+    ensures h1.kids[p.last()] is None,
+    decreases p.len(),
+{
+    if p.len() > 1 {
+        let q = p.drop_last();
+        assert forall|k: int| 0 <= k < q.len() - 1 implies child_of(h0, #[trigger] q[k + 1], q[k]) by { assert(q[k + 1] == p[k + 1]); assert(q[k] == p[k]); }
+        lemma_whole_subtree(h0, h1, root, q);
+        let a = q.last(); let c = p.last();
+        assert(p[p.len() - 2] == a);
+        assert(child_of(h0, p[(p.len() - 2) + 1], p[p.len() - 2]));
+        assert(h0.kids[a].unwrap().contains(c));
+    }
+}
+
+/// `v.extend(other.into_iter().rev())` (R22): std semantics, trusted
+#[verifier::external_body]
+pub fn vx_extend_rev_std(v: &mut Vec<ActorCell>, other: Vec<ActorCell>)
+    ensures final(v)@ == old(v)@ + other@.reverse(),
+{ unimplemented!() }
+/// the same with its consequences for the worklist predicates (verified from the std semantics above)
+pub fn vx_extend_rev(v: &mut Vec<ActorCell>, other: Vec<ActorCell>)
+    ensures
+        final(v)@ == old(v)@ + other@.reverse(),
+        forall|a: ActorId| #[trigger] has(final(v)@, a) <==> has(old(v)@, a) || has(other@, a),
+        forall|i: int| 0 <= i < other@.len() ==> has(final(v)@, (#[trigger] other@[i])@),
+        all_wf(old(v)@) && all_wf(other@) ==> all_wf(final(v)@),
+{
+    let ghost v0 = v@;
+    vx_extend_rev_std(v, other);
+    proof {
+        assert forall|a: ActorId| #[trigger] has(v@, a) <==> has(v0, a) || has(other@, a) by { lemma_has_append_rev(v0, other@, a); }
+        assert forall|i: int| 0 <= i < other@.len() implies has(v@, (#[trigger] other@[i])@) by { lemma_has_index(other@, i); lemma_has_append_rev(v0, other@, other@[i]@); }
+        if all_wf(v0) && all_wf(other@) { lemma_all_wf_append_rev(v0, other@); }
+    }
+}
+}
